@@ -1,6 +1,6 @@
 (* C02 -- no request, however malformed, crashes the service or disturbs other requests.
    Only property theorems here, each closed by `exact <lemma>`; proofs are in Proofs*.v, the model in Defs.v. *)
-From CppcmsV Require Import Base.Tac Base.CSem Base.Sweep C02.SMapDefs C02.SMapProofs C02.SMapProofs2 C02.SPool C02.Defs C02.Proofs C02.Proofs2 C02.Proofs3 C02.Proofs4 C02.Proofs5 C02.Link gen.Gen_c02proto gen.Gen_c02smap.
+From CppcmsV Require Import Base.Tac Base.CSem Base.Sweep C02.SMapDefs C02.SMapProofs C02.SMapProofs2 C02.SPool C02.MpEnd C02.Wd C02.Defs C02.Proofs C02.Proofs2 C02.Proofs3 C02.Proofs4 C02.Proofs5 C02.Link gen.Gen_c02proto gen.Gen_c02smap.
 Local Open Scope Z_scope.
 
 (* 1. declared length arithmetic: atoll is a saturating signed 64-bit value; a negative declared length is rejected
@@ -435,4 +435,47 @@ Example env_pool_nonvacuous :
   map fst (e_live c) = [(0%nat, 0%N, 2%N); (1%nat, 0%N, 1501%N); (0%nat, 2%N, 2%N); (0%nat, 4%N, 2%N)] /\ pages (e_pool c) = [1501; 2048]%N /\
   length (snd (spec_run (e_ops c) initial_cap [])) = 2%nat /\
   pages (e_pool (erun [EVar [65%N] (repeat 66%N 1500); EReset])) = [2048%N].
+Proof. vm_compute. repeat split. Qed.
+
+(* 16. multipart/form-data bodies, request::on_content_progress: the chunk loop over the results of multipart_parser::consume and the
+       end-of-body decision (model MpEnd.v, tied to the source by a rigid statement match in checks/C02.py:mp_end_tie): when the whole
+       declared length has been read the request goes on to the application only if the last result of the parser is eof; whatever
+       else it said last - content_ready right after a separator boundary, content_partial, meta_ready, continue_input, nothing at
+       all - the answer is 400 (or 413): a body that ends without the closing delimiter never reaches the application *)
+Theorem multipart_body_served_only_after_eof : forall rs, mp_progress rs true = 0 -> last rs MpContinue = MpEof.
+Proof. exact mp_served_only_after_eof. Qed.
+Print Assumptions multipart_body_served_only_after_eof.
+Theorem multipart_body_without_closing_delimiter_is_refused : forall rs, last rs MpContinue <> MpEof ->
+  mp_progress rs true = 400 \/ mp_progress rs true = 413.
+Proof. exact mp_not_eof_is_error. Qed.
+Print Assumptions multipart_body_without_closing_delimiter_is_refused.
+Example multipart_end_nonvacuous :
+  (* a body cut right after a separator boundary: the last result is content_ready -> 400; with the closing delimiter -> served;
+     eof before the declared length is read, input after eof, a file over the limit *)
+  mp_progress [MpMetaReady; MpContentPartial true; MpContentReady true] true = 400 /\
+  mp_progress [MpMetaReady; MpContentPartial true; MpContentReady true; MpEof] true = 0 /\
+  mp_progress [MpMetaReady; MpContentReady true] false = 0 /\
+  mp_progress [MpMetaReady; MpContentReady true; MpEof] false = 400 /\
+  mp_progress [MpContentReady true; MpEof; MpContinue] true = 400 /\
+  mp_progress [MpMetaReady; MpContentPartial false] true = 413 /\ mp_progress [] true = 400.
+Proof. vm_compute. repeat split. Qed.
+
+(* 17. the HTTP time-out watchdog (http::add_to_watchdog / remove_from_watchdog and the flag in_watchdog_, model Wd.v, tied by a rigid
+       statement match in checks/C02.py:watchdog_tie): over every sequence of events of a connection the flag tells the membership in
+       http_watchdog::connections_, so after every start of a header read - first request or any later request of a kept-alive
+       connection - the connection is a member and stays one until the request is complete: a peer that sends a truncated request, or
+       nothing, and holds the socket open is closed by check() after http.timeout *)
+Theorem watchdog_flag_is_membership : forall es, flag (wd_run es) = member (wd_run es).
+Proof. exact wd_flag_is_membership. Qed.
+Print Assumptions watchdog_flag_is_membership.
+Theorem connection_waiting_for_headers_is_in_watchdog : forall es tail, Forall (fun e => e <> ReadComplete) tail ->
+  member (wd_run (es ++ ReadHeadersStart :: tail)) = true.
+Proof. exact wd_member_until_complete. Qed.
+Print Assumptions connection_waiting_for_headers_is_in_watchdog.
+Example watchdog_nonvacuous :
+  (* two complete kept-alive requests, then a third one that never completes *)
+  member (wd_run [ReadHeadersStart; Other; ReadComplete; Other; ReadHeadersStart; ReadComplete; ReadHeadersStart; Other]) = true /\
+  member (wd_run [ReadHeadersStart; ReadComplete]) = false /\
+  (* a remove that leaves the flag set (the dropped reset) would not re-add: the model with the flag stuck at true *)
+  member (fold_left wd_step [ReadHeadersStart] (mkwd true false)) = false.
 Proof. vm_compute. repeat split. Qed.
